@@ -62,7 +62,9 @@ type FuncCtx struct {
 	params   map[string]Value
 	top      *Frame
 	alloc0   Term
-	allowed  map[string]bool // assigns
+	allowed  map[string]bool // assigns (items without object restriction)
+	allowedAt map[string][]string // assigns item -> objects (contract expressions, evaluated at entry) it is restricted to
+	except   []frameExcept
 	ghost    map[string]int  // ghost variable -> cell id
 }
 
@@ -473,58 +475,111 @@ func (x *Exec) store(st *State, l *Loc, v Value) {
 	}
 }
 
+type frameExcept struct{ item, expr string }
+
+// entryRef: the reference an `@obj` / `except obj` expression of the assigns clause denoted at entry.
+func (x *Exec) entryRef(fc *FuncCtx, st *State, expr string) Term {
+	e, err := x.prog.cs.parseExpr("old(" + expr + ")")
+	if err != nil {
+		x.abort("assigns @%s: %v", expr, err)
+	}
+	ev := x.newEval(fc.top, st, nil)
+	st.quiet++
+	x.inFrameCheck = true
+	v := ev.eval(e)
+	x.inFrameCheck = false
+	st.quiet--
+	switch w := v.(type) {
+	case *PtrV:
+		if w.Loc == nil {
+			return TZero
+		}
+		return x.refOf(st, w.Loc)
+	case *IfaceV:
+		return w.Data
+	case *SliceV:
+		return w.Ptr
+	case *MapV:
+		return w.Ref
+	case *Prim:
+		return w.T
+	}
+	x.abort("assigns @%s: not a reference", expr)
+	return Term{}
+}
+
 // checkFrame emits a frame obligation for a heap write of the function under verification.
 func (x *Exec) checkFrame(st *State, key string, ref Term) {
 	fc := x.curFunc
 	if fc == nil || fc.contract == nil || !fc.contract.HasAssigns || x.inFrameCheck {
 		return
 	}
-	if x.frameAllowed(fc, key) {
-		return
+	var cond Term
+	unrestricted := false
+	for a := range fc.allowed {
+		if itemMatches(a, key) {
+			unrestricted = true
+		}
 	}
-	cond := TFalse
-	if ref.S != "" {
-		// reference 0 is nil: there is no memory behind it (a nil slice has no elements, a nil pointer faults)
-		cond = Or(Ge(ref, fc.alloc0), Eq(ref, TZero))
+	if unrestricted {
+		// in the frame; `except` objects of a matching item must not be the one written
+		cond = TTrue
+		for _, ex := range fc.except {
+			if itemMatches(ex.item, key) {
+				if ref.S == "" {
+					cond = TFalse
+				} else {
+					cond = And(cond, Not(Eq(ref, x.entryRef(fc, st, ex.expr))))
+				}
+			}
+		}
+		if cond.S == "true" {
+			return
+		}
+	} else {
+		cond = TFalse
+		if ref.S != "" {
+			// reference 0 is nil: there is no memory behind it (a nil slice has no elements, a nil pointer faults)
+			cond = Or(Ge(ref, fc.alloc0), Eq(ref, TZero))
+			// written object is one the clause names (`T.f@obj`, `*p`), as it was at entry
+			for a, ats := range fc.allowedAt {
+				if itemMatches(a, key) {
+					for _, at := range ats {
+						cond = Or(cond, Eq(ref, x.entryRef(fc, st, at)))
+					}
+				}
+			}
+		}
 	}
 	x.oblige(st, "frame", key, cond, fc.contract.frameTags(), token.NoPos)
 }
 
 func (c *Contract) frameTags() []string { return append([]string{"C12", "C20"}, c.FrameTags...) }
 
-func (x *Exec) frameAllowed(fc *FuncCtx, key string) bool {
+// itemMatches: does the assigns item a cover the heap leaf key?
+func itemMatches(a, key string) bool {
 	// key: H|T|path, A|T|path, V|global|path, G|ghost, M|...
 	parts := strings.SplitN(key, "|", 3)
-	for a := range fc.allowed {
-		if a == "*" {
-			return true
-		}
-		switch {
-		case strings.HasPrefix(a, "deref "):
-			if parts[0] == "H" && parts[1] == strings.TrimPrefix(a, "deref ") {
-				return true
-			}
-		case strings.HasPrefix(a, "ghost "):
-			if parts[0] == "G" && parts[1] == strings.TrimPrefix(a, "ghost ") {
-				return true
-			}
-		case strings.HasPrefix(a, "global "):
-			if parts[0] == "V" && parts[1] == strings.TrimPrefix(a, "global ") {
-				return true
-			}
-		case strings.HasPrefix(a, "elems(") && strings.HasSuffix(a, ")"):
-			if parts[0] == "A" && parts[1] == a[6:len(a)-1] {
-				return true
-			}
-		default:
-			// T.f or T.*
-			if len(parts) == 3 && (parts[0] == "H" || parts[0] == "A" || parts[0] == "M") {
-				i := strings.LastIndex(a, ".")
-				if i > 0 {
-					t, f := a[:i], a[i+1:]
-					if t == parts[1] && (f == "*" || parts[2] == f || strings.HasPrefix(parts[2], f+".")) {
-						return true
-					}
+	if a == "*" {
+		return true
+	}
+	switch {
+	case strings.HasPrefix(a, "deref "):
+		return parts[0] == "H" && parts[1] == strings.TrimPrefix(a, "deref ")
+	case strings.HasPrefix(a, "ghost "):
+		return parts[0] == "G" && parts[1] == strings.TrimPrefix(a, "ghost ")
+	case strings.HasPrefix(a, "global "):
+		return parts[0] == "V" && parts[1] == strings.TrimPrefix(a, "global ")
+	case strings.HasPrefix(a, "elems(") && strings.HasSuffix(a, ")"):
+		return parts[0] == "A" && parts[1] == a[6:len(a)-1]
+	default:
+		// T.f or T.*
+		if len(parts) == 3 && (parts[0] == "H" || parts[0] == "A" || parts[0] == "M") {
+			i := strings.LastIndex(a, ".")
+			if i > 0 {
+				t, f := a[:i], a[i+1:]
+				if t == parts[1] && (f == "*" || parts[2] == f || strings.HasPrefix(parts[2], f+".")) {
+					return true
 				}
 			}
 		}
